@@ -60,6 +60,8 @@ class VR(Renderable):
     which honours every kind of seek (clamped at the beginning, StopIteration past the
     end)."""
 
+    _hier = False  # True in the class hierarchy below VR ("hier" cases)
+
     def __init__(self, n, dur, size, total, faults, stamp, ffaults=None):
         super().__init__(FrameCount.INDEFINITE if n is None else n, dur)
         self._vsize = size
@@ -95,6 +97,8 @@ class VR(Renderable):
         dur = d.duration if self.animated else 1
         durcode = -1 if dur is FrameDuration.DYNAMIC else dur
         a = render_args[VR].foo
+        if self._hier:
+            a = hier_value(self, render_args)
         w, h = d.size
         self.log.append([d.frame_offset, WHENCE.index(d.seek_whence), w, h, durcode, a,
                          int(render_data.finalized)])
@@ -146,6 +150,72 @@ class OtherArgs(ArgsNamespace, render_cls=Other):
     bar: int = 0
 
 
+# ----------------------------------------------------------------- class hierarchy ("hier" cases, C08)
+#
+# Renderable <- VR (foo) <- VRMid (mid) <- VRLeaf (leaf);  VR <- VRSib (sib);  Other (bar).
+# A case with `"hier": true` iterates over a VRMid INSTANCE; render arguments are then given as
+#   {"rel": "same",  "b": foo, "m": mid}           RenderArgs associated with VRMid itself
+#   {"rel": "anc",   "b": foo}                     ... with the parent VR (compatible: converted)
+#   {"rel": "anc0"}                                ... with Renderable (compatible: converted)
+#   {"rel": "desc",  "b": foo, "m": mid, "x": leaf} ... with the SUBCLASS VRLeaf (incompatible)
+#   {"rel": "sib",   "b": foo, "x": sib}           ... with the sibling VRSib (incompatible)
+#   {"rel": "other", "x": bar}                     ... with the unrelated Other (incompatible)
+# What `_render_` shows for the arguments it is handed: foo + 100 * mid, + 10000 if they are not associated
+# with the renderable's own class (the contract of `_render_`).
+
+
+class VRMid(VR):
+    _hier = True
+
+
+class VRMidArgs(ArgsNamespace, render_cls=VRMid):
+    mid: int = 0
+
+
+class VRLeaf(VRMid):
+    pass
+
+
+class VRLeafArgs(ArgsNamespace, render_cls=VRLeaf):
+    leaf: int = 0
+
+
+class VRSib(VR):
+    _hier = True
+
+
+class VRSibArgs(ArgsNamespace, render_cls=VRSib):
+    sib: int = 0
+
+
+def hier_value(renderable, render_args):
+    a = render_args[VR].foo
+    try:
+        a += 100 * render_args[VRMid].mid
+    except Exception:  # noqa: BLE001 — no namespace for VRMid at all
+        a += 5000
+    if render_args.render_cls is not type(renderable):
+        a += 10000
+    return a
+
+
+def mk_hier_args(a):
+    rel = a["rel"]
+    if rel == "same":
+        return RenderArgs(VRMid, VRArgs(a.get("b", 0)), VRMidArgs(a.get("m", 0)))
+    if rel == "anc":
+        return RenderArgs(VR, VRArgs(a.get("b", 0)))
+    if rel == "anc0":
+        return RenderArgs(Renderable)
+    if rel == "desc":
+        return RenderArgs(VRLeaf, VRArgs(a.get("b", 0)), VRMidArgs(a.get("m", 0)), VRLeafArgs(a.get("x", 0)))
+    if rel == "sib":
+        return RenderArgs(VRSib, VRArgs(a.get("b", 0)), VRSibArgs(a.get("x", 0)))
+    if rel == "other":
+        return RenderArgs(Other, OtherArgs(a.get("x", 0)))
+    raise AssertionError(rel)
+
+
 def mk_padding(p):
     if p[0] == "E":
         return ExactPadding(*p[1:5])
@@ -153,6 +223,8 @@ def mk_padding(p):
 
 
 def mk_args(a):
+    if isinstance(a, dict):
+        return mk_hier_args(a)
     if a == "bad":
         return RenderArgs(Other, OtherArgs(3))
     if a == "base":
@@ -274,8 +346,9 @@ def apply_op(it, o):
 def make_renderable(case):
     faults = {int(k): v for k, v in case.get("faults", {}).items()}
     ffaults = {int(k): v for k, v in case.get("ffaults", {}).items()}
-    r = VR(case["n"], mk_dur(case["dur"]), Size(*case["size"]), case.get("total", 5), faults,
-           case.get("stamp", False), ffaults)
+    cls = VRMid if case.get("hier") else VR
+    r = cls(case["n"], mk_dur(case["dur"]), Size(*case["size"]), case.get("total", 5), faults,
+            case.get("stamp", False), ffaults)
     if case["n"] is not None and case.get("frame", 0):
         r.seek(case["frame"])
     return r
